@@ -649,7 +649,8 @@ func c03R4(h H) {
 			pth, root := fieldPath(arg)
 			_, isParam := root.(*ssa.Parameter)
 			direct := pth == "URL.Path" && isParam
-			construct := shortFunc(fn) + "/open:" + openKind(arg)
+			// keyed by the kind of derived path, not by the function that happens to hold the Open call
+			construct := "staticfiles/open:" + openKind(arg)
 			if direct {
 				r.Hold("R4", construct, open.Pos(), "opens exactly the request path the protectors matched against")
 			} else {
@@ -658,7 +659,7 @@ func c03R4(h H) {
 		}
 	}
 	if fn := h.p.Func(brPkg, "Browse.ServeArchive"); fn != nil {
-		for _, g := range withClosures(fn) {
+		for _, g := range withHelpers(fn, 3) {
 			allInstrs(g, func(in ssa.Instruction) {
 				ex, ok := in.(*ssa.Extract)
 				if !ok || isJailedOpen(ex) == nil {
@@ -666,7 +667,7 @@ func c03R4(h H) {
 				}
 				n++
 				open := isJailedOpen(ex)
-				r.Fail("R4", shortFunc(g)+"/open:"+openKind(open.Call.Args[0]), open.Pos(), "archives files below the requested directory; basicauth/internal matched only the directory's own path", describe(open.Call.Args[0]))
+				r.Fail("R4", "browse.ServeArchive/open:archive-member", open.Pos(), "archives files below the requested directory; basicauth/internal matched only the directory's own path", describe(open.Call.Args[0]))
 			})
 		}
 	}
